@@ -2,11 +2,16 @@
 
     What is kernel-checked here: the step bounds and lock-freedom, for every
     pool of participants and every schedule (a frozen participant is one that
-    the schedule never mentions again; a dead one likewise).  That an operation
-    run alone also SUCCEEDS from every reachable state is established by the
-    frozen-peer exploration (vlib/c06.py), not by a theorem. *)
+    the schedule never mentions again; a dead one likewise); and success of the
+    survivor relative to the race class: in every pool under every schedule -
+    in particular with every other participant frozen or dead wherever it is - a
+    lookup, touch, set, put, set_temp_file or put_temp_file whose received
+    responses all lie in the class of what peers can cause finishes WITHOUT an
+    I/O error ([C06_survivor_succeeds]).  That the responses of every reachable
+    state do lie in that class is established by the frozen-peer exploration
+    (vlib/c06.py). *)
 From Coq Require Import List NArith ZArith String Bool.
-From Kismet Require Import Gen.Constants Gen.Agree FS.Fs FS.Prog Ops.Ops Spec.Wp Spec.CountMon Conc.Pool Conc.PoolProofs Proofs.PoolLift.
+From Kismet Require Import Gen.Constants Gen.Agree FS.Fs FS.Prog Ops.Ops Spec.Wp Spec.CountMon Conc.Pool Conc.PoolProofs Proofs.PoolLift Proofs.RaceFree Proofs.RaceFreeW.
 Import ListNotations.
 Local Open Scope Z_scope.
 
@@ -48,6 +53,17 @@ Theorem C06_alone_terminates : forall A (p : prog A) w o, exists n, finished (pr
 Proof. exact @alone_terminates. Qed.
 
 (** No lock, lock file or wait in the vocabulary: a program can only issue these calls. *)
+(** Success of the survivor, relative to the race class (C05's theorems, for any
+    pool, any schedule - so with any set of peers frozen anywhere). *)
+Theorem C06_survivor_succeeds : forall cfg f k v,
+  s_writer cfg = Some f -> front_ok v f k ->
+  (s_checker cfg = None -> race_free_in_any_pool (cache_get cfg k)) /\ race_free_in_any_pool (cache_touch cfg k) /\
+  writers_race_free_in_any_pool v (cache_set cfg k v) /\ writers_race_free_in_any_pool v (cache_put cfg k v).
+Proof.
+  intros cfg f k v Hw Hd. split; [intros Hc; apply rf_pool, rf_cache_get, Hc|]. split; [apply rf_pool, rf_cache_touch|].
+  split; apply rw_pool; [exact (rw_cache_write v true cfg f k Hw Hd)|exact (rw_cache_write v false cfg f k Hw Hd)].
+Qed.
+
 Theorem C06_no_lock_in_vocabulary : forall c : call,
   match c with
   | COpen _ _ | CCreate _ _ | CCreateTrunc _ _ | COpenTmp _ | CClose _ | CFstat _ | CStat _ _ | CRead _ _
